@@ -803,6 +803,111 @@ fn synthetic_stream(rep: &mut Report, rng: &mut Rng, reqs: &mut Vec<String>, pen
     }
 }
 
+/// run llvm-cov gcov on notes/data bytes whose only source file is `syn.c`
+fn llvm_cov_on_bytes(dir: &Path, gcno: &[u8], gcda: &[u8]) -> Option<BTreeMap<String, GcovFile>> {
+    let _ = std::fs::remove_dir_all(dir);
+    std::fs::create_dir_all(dir).ok()?;
+    let src: String = (1..=60).map(|k| format!("/* {} */\n", k)).collect();
+    std::fs::write(dir.join("syn.gcno"), gcno).ok()?;
+    std::fs::write(dir.join("syn.gcda"), gcda).ok()?;
+    std::fs::write(dir.join("syn.c"), src).ok()?;
+    let o = Command::new("llvm-cov-14").args(["gcov", "-b", "syn.gcda"]).current_dir(dir).output().ok()?;
+    if !o.status.success() {
+        return None;
+    }
+    match std::fs::read(dir.join("syn.c.gcov")) {
+        Ok(t) => {
+            let (srcname, f) = parse_gcov_text(&String::from_utf8_lossy(&t))?;
+            Some([(srcname, f)].into_iter().collect())
+        }
+        Err(_) => Some(BTreeMap::new()),
+    }
+}
+
+/// llvm-cov gcov on generated notes/data files: spanning-tree CFGs in the 408* layout with
+/// consistent flows (shapes clang would not produce: irreducible loops, parallel arcs, lines
+/// repeated inside a block, lines shared by distant blocks)
+fn synthetic_llvm_cov_stream(rep: &mut Report, rng: &mut Rng) {
+    let n = rep.budget(60, 25);
+    let dir = rep.workdir.join("syn");
+    for i in 0..n {
+        let _ = std::fs::remove_dir_all(&dir);
+        if std::fs::create_dir_all(&dir).is_err() {
+            return;
+        }
+        let version = 48;
+        let checksum = rng.next() as u32;
+        let nf = rng.range(1, 2) as u32;
+        let mut fns: Vec<GenFn> = Vec::new();
+        while fns.len() < nf as usize {
+            let small = rng.chance(1, 3);
+            let mut f = gen_fn(rng, version, fns.len() as u32, small);
+            if !f.tree_ok {
+                continue;
+            }
+            // like LLVM: every line of a function is listed under the function's own file
+            f.file = b"syn.c".to_vec();
+            f.name = format!("fn{}", fns.len()).into_bytes();
+            for (_, items) in f.lines.iter_mut() {
+                let mut keep: Vec<LineItem> = vec![LineItem::File(b"syn.c".to_vec())];
+                let mut own = true;
+                for it in items.iter() {
+                    match it {
+                        LineItem::File(x) => own = x != b"other.h",
+                        LineItem::Line(l) => {
+                            if own {
+                                keep.push(LineItem::Line(*l));
+                            }
+                        }
+                    }
+                }
+                *items = keep;
+            }
+            // no fake arcs: llvm-cov has no notion of them
+            for a in f.arcs.iter_mut() {
+                a.2 &= !2;
+            }
+            fns.push(f);
+        }
+        let mut recs = Vec::new();
+        for f in &fns {
+            recs.extend(f.recs());
+        }
+        let notes = Notes { version, checksum, recs };
+        let gcno = encode_gcno(&notes);
+        let mut parts: Vec<(&GenFn, Vec<u64>)> = Vec::new();
+        for f in fns.iter() {
+            let walks = if rng.chance(1, 6) { 0 } else { rng.range(1, 6) };
+            parts.push((f, gen_flow(rng, f, walks, 1)));
+        }
+        let gcda = gcda_for(version, checksum, &parts);
+        let mut er = rng.fork();
+        let gbytes = encode_gcda(&gcda, &mut er);
+        let theirs = match llvm_cov_on_bytes(&dir, &gcno, &gbytes) {
+            Some(t) => t,
+            None => {
+                rep.count("synthetic_llvm_cov.tool_failed");
+                continue;
+            }
+        };
+        let case = json!({"op": "synthetic-llvm-cov", "gcno": hex(&gcno), "gcdas": [hex(&gbytes)], "index": i});
+        rep.count("synthetic_llvm_cov.cases");
+        rep.evaluations += 1;
+        match run_compute(&gcno, &[gbytes.clone()], true) {
+            Ok(rs) => {
+                let ours = of_results(&rs);
+                if let Some(d) = diff_gcov(&ours, &theirs) {
+                    let fd = run_dump(&gcno, &[gbytes.clone()]).map(|d| dump_functions(&d)).unwrap_or_default();
+                    let finding = if matches_inflow_outflow(&ours, &theirs, &fd) { Some("C08-single-block-line-outflow") } else { None };
+                    rep.fail("oracle", finding, format!("Gcno::compute differs from llvm-cov gcov on generated notes: {}", d), case);
+                }
+            }
+            Err(e) => rep.fail("oracle", None, format!("Gcno::compute fails on generated notes: {}", e), case),
+        }
+    }
+    let _ = std::fs::remove_dir_all(&dir);
+}
+
 fn corpus_stream(rep: &mut Report, reqs: &mut Vec<String>, pend: &mut Vec<(String, Value, String)>) {
     // the LLVM-format pairs shipped with the repository
     for stem in ["/repo/test/llvm/file", "/repo/test/llvm/file_branch", "/repo/test/llvm/reader", "/repo/test/rust/generics_with_two_parameters"] {
@@ -844,6 +949,8 @@ fn run_inner(rep: &mut Report) {
         && Command::new("llvm-cov-14").arg("--version").output().map(|o| o.status.success()).unwrap_or(false);
     if have_tools {
         compiled_stream(rep, &mut rng, &mut reqs, &mut pend);
+        let mut lrng = Rng::new(rep.seed ^ 0xC08_11);
+        synthetic_llvm_cov_stream(rep, &mut lrng);
     } else {
         rep.notes.push("clang-14 / llvm-cov-14 not found: the llvm-cov comparison was NOT run".into());
         rep.count("program.tools_missing");
@@ -943,6 +1050,39 @@ pub fn replay(rep: &mut Report, case: &Value) {
                     rep.disagreements_checked += 1;
                     // the model recovers the flow (theorem); a difference means the code does not
                     rep.fail("oracle", None, format!("impl {} / model {}", outs[i], answers[i]), case.clone());
+                }
+            }
+        }
+        "synthetic-llvm-cov" => {
+            let gcno = unhex(case["gcno"].as_str().unwrap_or(""));
+            let gcda = unhex(case["gcdas"][0].as_str().unwrap_or(""));
+            rep.case("synthetic-llvm-cov", true);
+            if std::env::var("C08_DEBUG").is_ok() {
+                eprintln!("STATE {}", run_state(&gcno, &[gcda.clone()]));
+                if let Some(n) = decode_gcno(&gcno) {
+                    eprintln!("NOTES {}", notes_text(&n));
+                }
+                if let Some(d) = decode_gcda(&gcda) {
+                    eprintln!("GCDA {}", gcda_text(&d));
+                }
+            }
+            if let Some(theirs) = llvm_cov_on_bytes(&rep.workdir.join("syn"), &gcno, &gcda) {
+                if std::env::var("C08_DEBUG").is_ok() {
+                    eprintln!("LLVM {:?}", theirs);
+                }
+                match run_compute(&gcno, &[gcda.clone()], true) {
+                    Ok(rs) => {
+                        let ours = of_results(&rs);
+                        if std::env::var("C08_DEBUG").is_ok() {
+                            eprintln!("OURS {:?}", ours);
+                        }
+                        if let Some(d) = diff_gcov(&ours, &theirs) {
+                            let fd = run_dump(&gcno, &[gcda.clone()]).map(|d| dump_functions(&d)).unwrap_or_default();
+                            let finding = if matches_inflow_outflow(&ours, &theirs, &fd) { Some("C08-single-block-line-outflow") } else { None };
+                            rep.fail("oracle", finding, format!("Gcno::compute differs from llvm-cov gcov on generated notes: {}", d), case.clone());
+                        }
+                    }
+                    Err(e) => rep.fail("oracle", None, format!("Gcno::compute fails: {}", e), case.clone()),
                 }
             }
         }
